@@ -59,7 +59,7 @@ func TestVerif_C36(t *testing.T) {
 		window, reload, inflight := stratum == 2, stratum == 3, stratum == 4
 		switch stratum {
 		case 0:
-			sendDelay, quiesce, batchTimeout = 2*time.Millisecond, true, 30*time.Second
+			sendDelay, quiesce, batchTimeout, maxBatch = 2*time.Millisecond, true, 30*time.Second, verifkit.Pick(rng, 50, 500)
 		case 1:
 			sendDelay, quiesce, batchTimeout = 2*time.Millisecond, true, 10*time.Millisecond
 		case 2:
@@ -136,6 +136,13 @@ func TestVerif_C36(t *testing.T) {
 		}
 		cut := verifkit.Pick(rng, 0, len(batches), rng.Intn(len(batches)+1), rng.Intn(len(batches)+1))
 		dataset := verifkit.Pick(rng, "c36", "c36 ds/x")
+		// the ordinary batches go to several destinations (API key x dataset), so that
+		// more than one partially filled upstream batch can be pending when Stop runs
+		type dest struct{ key, ds string }
+		batchDest := make([]dest, len(batches))
+		for i := range batchDest {
+			batchDest[i] = dest{verifkit.Pick(rng, e2KeyA, e2KeyB), verifkit.Pick(rng, dataset, dataset+"-2", dataset+"-3")}
+		}
 		if window || inflight {
 			cut = len(batches)
 		}
@@ -143,8 +150,8 @@ func TestVerif_C36(t *testing.T) {
 		// ---- phase 1: batches acknowledged before the shutdown request
 		acked := map[string]e2Span{}
 		rootAcked := map[string]bool{}
-		for _, b := range batches[:cut] {
-			res := cl.PostBatch(0, false, e2KeyA, dataset, b)
+		for bi, b := range batches[:cut] {
+			res := cl.PostBatch(0, false, batchDest[bi].key, batchDest[bi].ds, b)
 			if !res.AllAccepted(len(b)) {
 				run.Inconclusive(fmt.Sprintf("a batch was not accepted before shutdown: err=%v http=%d body=%s", res.Err, res.HTTPStatus, res.Body))
 				return
@@ -287,8 +294,8 @@ func TestVerif_C36(t *testing.T) {
 		duringDone := make(chan struct{})
 		go func() {
 			defer close(duringDone)
-			for _, b := range batches[cut:] {
-				cl.PostBatch(0, false, e2KeyA, dataset, b) // any outcome is allowed here
+			for bi, b := range batches[cut:] {
+				cl.PostBatch(0, false, batchDest[cut+bi].key, batchDest[cut+bi].ds, b) // any outcome is allowed here
 			}
 		}()
 		type stopResult struct {
@@ -301,6 +308,31 @@ func TestVerif_C36(t *testing.T) {
 		if window || inflight {
 			cl.Nodes[0].HealthGate.Arm("collector")
 			cl.DropIdleConnections()
+		}
+		// Stratum 0: Honeycomb rate-limits each destination once the shutdown is requested:
+		// 429 + "Retry-After: 1", and it keeps refusing that destination until the second
+		// is over (the fake's behaviour, not an oracle). The pending batches flushed by
+		// Stop meet this and must still be delivered.
+		if stratum == 0 {
+			var rlMu sync.Mutex
+			refuseUntil := map[string]time.Time{}
+			cl.Honey.SetResponder(func(r *verifkit.HoneyRequest) *verifkit.HoneyResponse {
+				if !r.IsBatch {
+					return nil
+				}
+				rlMu.Lock()
+				defer rlMu.Unlock()
+				k := r.APIKey + "|" + r.Dataset
+				until, seen := refuseUntil[k]
+				if !seen {
+					until = time.Now().Add(time.Second)
+					refuseUntil[k] = until
+				}
+				if time.Now().Before(until) {
+					return &verifkit.HoneyResponse{Status: 429, Header: map[string]string{"Retry-After": "1"}, Raw: []byte(`{"error":"rate limited"}`)}
+				}
+				return nil
+			})
 		}
 		fmt.Fprintf(os.Stderr, "VERIF C36 seed=%d case=%d: requesting shutdown\n", run.Seed(), ci)
 		// A config reload can be delivered at any time (watcher tick, message from a
@@ -470,10 +502,29 @@ func TestVerif_C36(t *testing.T) {
 		// (b) every span acknowledged before the request is at Honeycomb
 		got := map[string]int{}
 		for _, ev := range cl.Honey.Events() {
+			if ev.Req.Status != 200 {
+				continue // refused by the (rate limiting) fake: not delivered
+			}
 			got[e2EventID(ev.Data)]++
+		}
+		refused := 0
+		for _, r := range cl.Honey.Requests() {
+			if r.IsBatch && r.Status == 429 {
+				refused++
+			}
+		}
+		run.Count("batches_refused_with_429_during_shutdown", int64(refused))
+		for id, n := range got {
+			if _, mine := acked[id]; mine && n > 1 {
+				run.Violation("C36/graceful-stop/span-forwarded-more-than-once", "a span acknowledged before the shutdown request was delivered to Honeycomb more than once",
+					map[string]any{"span": id, "deliveries": n, "batch_timeout": batchTimeout.String(), "stratum": stratum})
+			}
 		}
 		tracesAtHoney := map[string]bool{}
 		for _, ev := range cl.Honey.Events() {
+			if ev.Req.Status != 200 {
+				continue
+			}
 			if tid, ok := verifkit.AsString(ev.Data["trace.trace_id"]); ok {
 				tracesAtHoney[tid] = true
 			}
